@@ -648,6 +648,11 @@ pub struct IdentCase {
     pub steps: Vec<(u8, u16, u16, u16)>,
     /// identities to test: (kind, three operand picks, variable byte, value)
     pub idents: Vec<(u8, u16, u16, u16, u8, bool)>,
+    /// where the builder's order comes from: 0 a pseudo-random permutation made by the harness; 1 / 2 / 3 the library's
+    /// linear / min-fill / FORCE order of a pseudo-random CNF over the same variables, about a third of which occur in
+    /// no clause (the orders a user gets from the library are orders builders are made with)
+    #[serde(default)]
+    pub lib_order: u8,
 }
 
 pub struct Identities;
@@ -750,13 +755,33 @@ fn ident_go<'a, T: IteTable<'a, BddPtr<'a>> + Default>(b: &'a RobddBuilder<'a, T
 pub fn run_ident(case: &IdentCase, st: &mut Stats) -> CaseResult {
     let n = (case.nv as usize).clamp(9, 20);
     let order: Vec<VarLabel> = crate::big::permutation(case.seed, n).into_iter().map(VarLabel::new_usize).collect();
+    let make_order = || -> VarOrder {
+        if case.lib_order % 4 == 0 {
+            return VarOrder::new(&order);
+        }
+        // a CNF over labels 0..n in which about a third of the labels occur in no clause; the last label always occurs
+        let used: Vec<usize> = (0..n).filter(|v| *v + 1 == n || splitmix(case.seed ^ 0x0DD ^ (*v as u64) << 7) % 3 != 0).collect();
+        let lit = |k: u64| {
+            let v = used[(splitmix(case.seed ^ 0xC1A ^ k) as usize) % used.len()];
+            rsdd::repr::Literal::new(VarLabel::new_usize(v), splitmix(case.seed ^ 0xB0 ^ k) & 1 == 1)
+        };
+        let mut clauses: Vec<Vec<rsdd::repr::Literal>> = (0..(n as u64 + 3)).map(|c| (0..(2 + c % 3)).map(|j| lit(c * 8 + j)).collect()).collect();
+        clauses.push(vec![rsdd::repr::Literal::new(VarLabel::new_usize(n - 1), true), lit(999)]);
+        let cnf = rsdd::repr::Cnf::new(&clauses);
+        match case.lib_order % 4 {
+            1 => cnf.linear_order(),
+            2 => cnf.min_fill_order(),
+            _ => cnf.force_order(),
+        }
+    };
+    st.bump(["order.harness_permutation", "order.library_linear", "order.library_min_fill", "order.library_force"][(case.lib_order % 4) as usize]);
     rsdd::verif_hooks::set_unique_table_capacity(case.table_cap.map(|c| c as usize));
     if case.cache == 0 {
-        let b = RobddBuilder::<AllIteTable<BddPtr>>::new(VarOrder::new(&order));
+        let b = RobddBuilder::<AllIteTable<BddPtr>>::new(make_order());
         rsdd::verif_hooks::set_unique_table_capacity(None);
         ident_go(&b, case, st)
     } else {
-        let b = RobddBuilder::<rsdd::builder::cache::LruIteTable<BddPtr>>::new(VarOrder::new(&order));
+        let b = RobddBuilder::<rsdd::builder::cache::LruIteTable<BddPtr>>::new(make_order());
         rsdd::verif_hooks::set_unique_table_capacity(None);
         ident_go(&b, case, st)
     }
@@ -765,7 +790,7 @@ pub fn run_ident(case: &IdentCase, st: &mut Stats) -> CaseResult {
 impl SubCheckT for Identities {
     type Case = IdentCase;
     const NAME: &'static str = "identities_on_large_diagrams";
-    const RULE: &'static str = "a builder over 9..20 variables (pseudo-random order, either cache, unique table default or 1..64 slots), a pool grown by 10..40 and / or / xor / ite / iff steps from parity-like seeds (diagrams of hundreds of nodes), then 4..16 identities whose two sides are built by different routes and must be the same pointer: commutativity, De Morgan, xor and ite by and/or, exists = or of the two cofactors, compose = exists v. (v <=> g) & f, conditioning distributes over and, Shannon re-assembly, and_lst = nested and, iff = not xor; both sides pass the shape walk (ordered, reduced, regular non-false high edges); sides that differ as pointers are evaluated on 192 sampled assignments: agreeing there, they are two pointers for one function (reported here), else an operation returned another function (recorded, C01's concern). Non-trivial: a diagram of more than 64 nodes took part";
+    const RULE: &'static str = "a builder over 9..20 variables (pseudo-random order, or in two cases of five the library's own linear / min-fill / FORCE order of a CNF in which a third of the variables do not occur; either cache, unique table default or 1..64 slots), a pool grown by 10..40 and / or / xor / ite / iff steps from parity-like seeds (diagrams of hundreds of nodes), then 4..16 identities whose two sides are built by different routes and must be the same pointer: commutativity, De Morgan, xor and ite by and/or, exists = or of the two cofactors, compose = exists v. (v <=> g) & f, conditioning distributes over and, Shannon re-assembly, and_lst = nested and, iff = not xor; both sides pass the shape walk (ordered, reduced, regular non-false high edges); sides that differ as pointers are evaluated on 192 sampled assignments: agreeing there, they are two pointers for one function (reported here), else an operation returned another function (recorded, C01's concern). Non-trivial: a diagram of more than 64 nodes took part";
     fn cases(tier: Tier) -> u32 {
         tier.pick(1500, 40_000)
     }
@@ -777,8 +802,9 @@ impl SubCheckT for Identities {
             prop_oneof![2 => Just(None), 3 => (1u16..=64).prop_map(Some)],
             proptest::collection::vec((any::<u8>(), idx_strategy(), idx_strategy(), idx_strategy()), 10..=40),
             proptest::collection::vec((any::<u8>(), idx_strategy(), idx_strategy(), idx_strategy(), any::<u8>(), any::<bool>()), 4..=16),
+            prop_oneof![3 => Just(0u8), 2 => 1u8..=3],
         )
-            .prop_map(|(nv, seed, cache, table_cap, steps, idents)| IdentCase { nv, seed, cache, table_cap, steps, idents })
+            .prop_map(|(nv, seed, cache, table_cap, steps, idents, lib_order)| IdentCase { nv, seed, cache, table_cap, steps, idents, lib_order })
             .boxed()
     }
     fn run(case: &IdentCase, st: &mut Stats) -> CaseResult {
